@@ -26,7 +26,9 @@ func main() {
 	}
 }
 
-// harnessOverlay maps every harness/runtime source in dir to a virtual file in the repo.
+// harnessOverlay maps every harness/runtime source in dir to a virtual file in
+// the repo, and the frozen reference copy (dir/../ref/ice) to the virtual
+// package directory <repo>/zz_vp_ref.
 func harnessOverlay(repo, dir string) (map[string]string, error) {
 	ents, err := os.ReadDir(dir)
 	if err != nil {
@@ -37,6 +39,14 @@ func harnessOverlay(repo, dir string) (map[string]string, error) {
 		n := e.Name()
 		if strings.HasSuffix(n, ".go") && strings.HasPrefix(n, "zz_vp_") {
 			ov[repo+"/"+n] = dir + "/" + n
+		}
+	}
+	refDir := dir + "/../ref/ice"
+	if rents, err := os.ReadDir(refDir); err == nil {
+		for _, e := range rents {
+			if strings.HasSuffix(e.Name(), ".go") {
+				ov[repo+"/zz_vp_ref/"+e.Name()] = refDir + "/" + e.Name()
+			}
 		}
 	}
 	return ov, nil
